@@ -992,6 +992,9 @@ def _finalize_fairy(
                 if connection_record:
                     fairy._pool = pool
                     fairy.detach()
+                    # the record went back to the pool with detach();
+                    # another checkout may own it already
+                    connection_record = None
 
                 if can_close_or_terminate_connection:
                     if pool.dispatch.close_detached:
